@@ -115,6 +115,8 @@ type dOp struct {
 	Bcast bool   `json:"bcast,omitempty"`
 	Srv   string `json:"srv,omitempty"` // decline/release: ours other
 	D     int    `json:"d,omitempty"`   // tick: 0 = +1 min, 1 = +5 h
+	VC    int    `json:"vc,omitempty"` // vendor class (option 60): 0 none, 1 "MSFT 5.0", 2 "PXEClient:Arch:00000:UNDI:002001", 3 "android-dhcp-13"
+	LT    int    `json:"lt,omitempty"` // requested lease time (option 51): 0 none, 1 ten minutes, 2 infinite - the ACK's own lease time is what binds
 	Spoof bool   `json:"spoof,omitempty"`
 	FMAC  int    `json:"fmac,omitempty"` // foreign: MAC index
 }
@@ -133,6 +135,8 @@ func (o dOp) String() string {
 		return fmt.Sprintf("tick(%d)", o.D)
 	case "purge":
 		return "session-purge"
+	case "age":
+		return fmt.Sprintf("age(%d)", o.D)
 	case "foreign":
 		return fmt.Sprintf("foreign(%s,%s)", hMACName[o.FMAC], o.Req)
 	}
@@ -174,6 +178,26 @@ type dLedger struct {
 	// It is kept generously (until the lease time has passed or the client declines it), whereas holder
 	// is dropped eagerly: each side errs towards accepting.
 	may [dN]netip.Addr
+	// virtual clock of the lease table: elapsed is the wall-clock time that the "age" steps have let pass so far,
+	// ackAt[c] its value when c's lease was (last) acknowledged. Every lease lasts dLeaseTime.
+	elapsed time.Duration
+	ackAt   [dN]time.Duration
+}
+
+const dLeaseTime = 4 * time.Hour
+
+// expire forgets the leases that have run out when extra more time has passed (extra = 0: by now).
+func (l *dLedger) expire(extra time.Duration) {
+	for ip, k := range l.holder {
+		if l.elapsed-l.ackAt[k]+extra > dLeaseTime {
+			delete(l.holder, ip)
+		}
+	}
+	for k := range l.may {
+		if l.may[k].IsValid() && l.elapsed-l.ackAt[k]+extra > dLeaseTime {
+			l.may[k] = netip.Addr{}
+		}
+	}
 }
 
 func (l *dLedger) holding(c int) (netip.Addr, bool) {
@@ -557,6 +581,12 @@ func runDHCPOn(tb drv.TB, rec *drv.Rec, sub string, h dhcpHistory, or dhcpOracle
 			if prl := dPRLs[op.PRL%len(dPRLs)]; prl != nil {
 				m.Options = append(m.Options, ref.DHCPOpt{Code: 55, Data: prl})
 			}
+			if vc := []string{"", "MSFT 5.0", "PXEClient:Arch:00000:UNDI:002001", "android-dhcp-13"}[op.VC%4]; vc != "" {
+				m.Options = append(m.Options, ref.DHCPOpt{Code: 60, Data: []byte(vc)})
+			}
+			if lt := [][]byte{nil, {0, 0, 2, 0x58}, {0xff, 0xff, 0xff, 0xff}}[op.LT%3]; lt != nil {
+				m.Options = append(m.Options, ref.DHCPOpt{Code: 51, Data: lt})
+			}
 			if op.Bcast {
 				m.Flags = 0x8000
 			}
@@ -576,10 +606,12 @@ func runDHCPOn(tb drv.TB, rec *drv.Rec, sub string, h dhcpHistory, or dhcpOracle
 		case "tick":
 			d := time.Minute
 			if op.D == 1 {
-				d = 5 * time.Hour
-				led.holder = map[netip.Addr]int{} // every lease (4 h) has expired
-				led.may = [dN]netip.Addr{}
+				d = 5 * time.Hour // every lease (4 h) has expired
 			}
+			if op.D == 2 { // half an hour: a lease acknowledged less than three and a half hours ago still runs
+				d = 30 * time.Minute
+			}
+			led.expire(d) // the ticker frees what will have run out by then (it looks ahead: no time passes)
 			for i := range led.offered { // an offer is only good for seconds
 				if led.offered[i].ok {
 					led.offered[i].ok, led.offered[i].expired = false, true
@@ -589,6 +621,18 @@ func runDHCPOn(tb drv.TB, rec *drv.Rec, sub string, h dhcpHistory, or dhcpOracle
 				violate(step, sig, "MinuteTicker panicked: %v\n%s", p, st)
 				return
 			}
+		case "age": // wall-clock time passes for the lease table (dhcp4_spoofer.VerifAgeLeases); the ticker does not run
+			// (the amounts are such that no sum of them and of the ticker's look-ahead comes within a minute of the lease time)
+			// (with the fourth, a lease acknowledged just before a 3 h 03 min step is 25 s past its end: "recently expired")
+			d := []time.Duration{6 * time.Second, time.Hour + 7*time.Minute, 3*time.Hour + 3*time.Minute, 57*time.Minute + 25*time.Second}[op.D%4]
+			led.elapsed += d
+			led.expire(0) // a lease that has run out is over, whether or not the server has noticed yet
+			for i := range led.offered { // an offer is only good for seconds
+				if led.offered[i].ok {
+					led.offered[i].ok, led.offered[i].expired = false, true
+				}
+			}
+			env.h.VerifAgeLeases(d)
 		case "purge": // the session forgets silent stations (offline after 6 min, removed after 70 min) while their leases (4 h) go on
 			for _, d := range []time.Duration{6 * time.Minute, 70 * time.Minute} {
 				if p, sig, st := drv.Catch(func() { env.s.VerifPurge(time.Now().Add(d)) }); p != nil {
@@ -820,6 +864,7 @@ func runDHCPOn(tb drv.TB, rec *drv.Rec, sub string, h dhcpHistory, or dhcpOracle
 				led.drop(ident)
 				led.holder[yi] = ident
 				led.may[ident] = yi
+				led.ackAt[ident] = led.elapsed
 				led.offered[ident] = dOffer{}
 				if or.AfterAck != nil {
 					or.AfterAck(step, led)
